@@ -116,5 +116,28 @@ if __name__ == "__main__":
         print(json.dumps(res, indent=1))
     elif sys.argv[1] == "confirm":
         confirm(sys.argv[2], sys.argv[3])
+    elif sys.argv[1] == "matrix":
+        # every quick check against every (listed) seeded change: which other properties does a change break, and does any
+        # check alarm where the property is intact?  Stored in seeded/<id>/meta.json under "cross".
+        ALL = ["C%02d" % i for i in range(1, 19)]
+        sids = sys.argv[2:] or sorted(os.listdir(os.path.join(HERE, "seeded")))
+        for sid in sids:
+            mp = os.path.join(HERE, "seeded", sid, "meta.json")
+            meta = json.load(open(mp))
+            if "cross" in meta and len(meta["cross"]) == len(ALL):
+                continue
+            res = evaluate(sid, ALL)
+            meta = json.load(open(mp))
+            meta["cross"] = {p: {"exit": r["exit"], "clauses": r["clauses"], "wall_s": r["wall_s"]} for p, r in res.items()}
+            json.dump(meta, open(mp, "w"), indent=1)
+    elif sys.argv[1] == "matrix-table":
+        ALL = ["C%02d" % i for i in range(1, 19)]
+        print("| change | " + " | ".join(p[1:] for p in ALL) + " |")
+        print("|---|" + "---|" * len(ALL))
+        for sid in sorted(os.listdir(os.path.join(HERE, "seeded"))):
+            meta = json.load(open(os.path.join(HERE, "seeded", sid, "meta.json")))
+            c = meta.get("cross")
+            if c:
+                print("| %s | " % sid + " | ".join({0: ".", 1: "**X**"}.get(c.get(p, {}).get("exit"), "?") for p in ALL) + " |")
     elif sys.argv[1] == "table":
         table(md="--md" in sys.argv)
